@@ -9,6 +9,8 @@ mod c07;
 #[cfg(kani)]
 mod c06;
 #[cfg(kani)]
+mod c08;
+#[cfg(kani)]
 mod c11;
 #[cfg(kani)]
 mod c16;
